@@ -13,6 +13,15 @@ Tie H, grid descriptors: rectangular_grid / nearest_atom_index / prune / aso / a
 dyadic and generic boxes, spacings, ensembles, weights and charges; observations are passed as exact rationals and judged by
 `Model.Grid.gcheck` inside Coq (grid points within a rounding band of a sphere surface are left out, as the property says).
 Oracle: the property judged on the implementation alone against an independent float64 numpy evaluation.
+Argument kinds: every function is also called with its array arguments as list / tuple / ndarray of either float width and of
+integers / a view of a larger array / a read-only array, with the SAME object as both corners, with the same argument objects in
+several consecutive calls -- every call is judged against the values the caller passed, and every argument must be bit-for-bit
+unchanged after the call.
+Size: ensembles of up to 70 conformers / 70 atoms and grids of 10^3 .. 1.5 10^5 points whose sizes are, and are not, multiples of
+powers of two (distance arrays of 2^16 .. 2^24 elements), so that any internal blocking is crossed; such cases are judged in full
+by the numpy oracle (evaluated block-wise with its own ceil-count blocks) and inside Coq at a SAMPLE of grid points (first / last
+points, the points around every candidate block boundary, random and non-zero points) -- the literal of the whole grid would be
+too large; C19_blockwise / C19_sample / C19_grid_at state why a point-wise sample is meaningful.
 """
 import os, json, math, struct
 from fractions import Fraction as Fr
@@ -337,6 +346,102 @@ def grid_inputs(ctx):
                            ([1, 1, 1], [-3, 2, 2], 0.0, 1.0), ([0, 0, 0], [-3, 1, 1], 1.5, 0.5), ([0, 0, 0], [0, 0, 0], 0.0, 1.0),
                            ([0, 0, 0], [0, 0, -2.25], 0.0, 0.5)]:
         out.append(dict(kind="grid", stream="dyadic", r1=[float(x) for x in r1], r2=[float(x) for x in r2], pad=pad, s=s, dtype="float32"))
+    # large boxes (2 10^4 .. 1.3 10^5 points): judged in full by the oracle, inside Coq at sampled positions (CGridAt)
+    for i in range(4 if not ctx.thorough else 24):
+        s = rng.choice([0.25, 0.375, 0.5])
+        r1 = [rng.randint(-48, 0) / 8.0 for _ in range(3)]
+        ext = [rng.randint(26, 50), rng.randint(20, 50), rng.randint(20, 44)]
+        rng.shuffle(ext)
+        r2 = [r1[k] + ext[k] * s + rng.choice([0.0, 0.125, 0.25]) for k in range(3)]
+        out.append(dict(kind="grid", stream="dyadic", big=True, r1=r1, r2=r2, pad=rng.choice([0.0, 0.25, 0.5, 1.0]), s=s,
+                        dtype=rng.choice(["float32", "float64"]), k1=rng.choice(CORNER_KINDS[:6]), k2=rng.choice(CORNER_KINDS[:6])))
+    return out
+
+
+# corners as the caller may hold them.  "view": a row of a 2-D array (what coords.min(axis=0) of a slice gives), "strided":
+# every other element of a longer array, "readonly": flags.writeable = False, "i64": integer corners
+CORNER_KINDS = ["list", "tuple", "f32", "f64", "view32", "view64", "strided64", "strided32", "readonly32", "readonly64", "i64"]
+
+
+def make_corner(kind, vals):
+    np = np_()
+    if kind == "list":
+        return [float(v) for v in vals]
+    if kind == "tuple":
+        return tuple(float(v) for v in vals)
+    if kind == "i64":
+        return np.array([int(v) for v in vals], dtype=np.int64)
+    typ = np.float32 if kind.endswith("32") else np.float64
+    if kind.startswith("view"):
+        return np.array([[9.0, 9.0, 9.0], list(vals)], dtype=typ)[1]
+    if kind.startswith("strided"):
+        base = np.full(6, 9.0, dtype=typ)
+        base[::2] = vals
+        return base[::2]
+    a = np.array(vals, dtype=typ)
+    if kind.startswith("readonly"):
+        a.flags.writeable = False
+    return a
+
+
+def gridseq_inputs(ctx):
+    """the SAME corner objects passed to several consecutive calls (a scan over paddings / spacings / dtypes), every kind of
+    corner argument, and one object passed as both corners (a box grown around a point)"""
+    rng = ctx.rng
+    out = []
+    pairs = [(k, rng.choice(CORNER_KINDS)) for k in CORNER_KINDS] + [(rng.choice(CORNER_KINDS), k) for k in CORNER_KINDS[2:]]
+    alias = [k for k in CORNER_KINDS if k not in ("list", "tuple")] + ["list", "f32", "f64"]
+    if ctx.thorough:
+        pairs = pairs * 6
+        alias = alias * 4
+    for k1, k2, same in [(a, b, False) for a, b in pairs] + [(a, a, True) for a in alias]:
+        integer = "i64" in (k1, k2)
+        r1 = [float(rng.randint(-5, 5)) if integer else rng.randint(-40, 40) / 8.0 for _ in range(3)]
+        r2 = list(r1) if same else [r1[k] + (float(rng.randint(0, 4)) if integer else rng.randint(0, 24) / 8.0) for k in range(3)]
+        calls = []
+        for c in range(3):
+            pad = rng.choice([0.25, 0.5, 1.0, 1.25, 0.75]) if (c == 0 or same) else rng.choice([0.0, 0.25, 0.5, 1.0, 1.25])
+            sp = rng.choice([0.25, 0.5, 0.75, 1.0, 0.375])
+            while math.prod(int((r2[k] - r1[k] + 2 * pad) // sp) + 1 for k in range(3)) > 160:
+                sp *= 2
+            native = {"32": "float32", "64": "float64"}.get(k1[-2:])
+            calls.append(dict(pad=pad, s=sp, dtype=(native if native and c == 0 else rng.choice(["float32", "float64"]))))
+        out.append(dict(kind="gridseq", stream="dyadic", r1=r1, r2=r2, k1=k1, k2=k2, same=same, calls=calls))
+    return out
+
+
+def arg_state(objs):
+    """[(name, object, frozen copy)] of the array arguments of a call"""
+    np = np_()
+    return [(n, o, np.array(o, copy=True)) for n, o in objs if isinstance(o, np.ndarray)]
+
+
+def args_changed(state):
+    """names of the arguments that are not bit-for-bit what they were"""
+    return [n for n, o, c in state if o.shape != c.shape or o.dtype != c.dtype or o.tobytes() != c.tobytes()]
+
+
+def run_gridseq(sd):
+    """one (term, [violations], info) per call; all calls receive the same corner objects"""
+    a1 = make_corner(sd["k1"], sd["r1"])
+    a2 = a1 if sd["same"] else make_corner(sd["k2"], sd["r2"])
+    np = np_()
+    frozen = arg_state([("r1", a1), ("r2", a2)])
+    plain = [(n, o, type(o), list(o)) for n, o in (("r1", a1), ("r2", a2)) if not isinstance(o, np.ndarray)]
+    out = []
+    for i, c in enumerate(sd["calls"]):
+        rd = dict(kind="grid", stream="dyadic", r1=sd["r1"], r2=sd["r2"], pad=c["pad"], s=c["s"], dtype=c["dtype"])
+        term, viol, info = run_grid(rd, (a1, a2))
+        how = (f"corners passed as {sd['k1']}/{sd['k2']}" + (" (one object for both corners)" if sd["same"] else "")
+               + (f", call {i + 1} with the same corner objects" if i else ""))
+        viols = [(viol[0] + (":same-object-as-both-corners" if sd["same"] else ":corner-objects-reused" if i else ":corner-kind"), how + ": " + viol[1])] if viol else []
+        bad = args_changed(frozen) + [n for n, o, t, c0 in plain if type(o) is not t or list(o) != c0]
+        if bad:
+            viols.append(("argument-mutated:" + "+".join(bad), f"{how}: rectangular_grid(padding={c['pad']}, spacing={c['s']}, dtype={c['dtype']}) changed "
+                          f"the caller's corner argument(s) {bad}: passed {sd['r1']} / {sd['r2']}, now {[float(v) for v in a1]} / {[float(v) for v in a2]}"))
+        out.append((term, viols, info))
+        if bad:
+            break                      # later calls would only repeat the same finding with shifted corners
     return out
 
 
@@ -344,9 +449,11 @@ def floor_div(a: Fr, b: Fr) -> int:
     return math.floor(a / b)
 
 
-def run_grid(rd):
-    """(term|None, violation|None, info)"""
+def run_grid(rd, args=None):
+    """(term|None, violation|None, info).  args = the corner objects to pass (default: the lists of rd, or rd['k1'] / rd['k2'] kinds)"""
     np = np_()
+    if args is None:
+        args = (make_corner(rd["k1"], rd["r1"]), make_corner(rd["k2"], rd["r2"])) if "k1" in rd else (rd["r1"], rd["r2"])
     from molli.descriptor import gridbased as gb
     typ = np.float32 if rd["dtype"] == "float32" else np.float64
     # the values the code actually computes with: inputs converted to dtype first (python floats are weak scalars)
@@ -361,7 +468,7 @@ def run_grid(rd):
     ns = [floor_div(r[k] - l[k], s) + 1 for k in range(3)]
     fr = [(r[k] - l[k]) / s - (ns[k] - 1) for k in range(3)]
     try:
-        g = gb.rectangular_grid(rd["r1"], rd["r2"], padding=rd["pad"], spacing=rd["s"], dtype=rd["dtype"])
+        g = gb.rectangular_grid(args[0], args[1], padding=rd["pad"], spacing=rd["s"], dtype=rd["dtype"])
     except ValueError as e:
         g = None
         err = str(e)
@@ -387,7 +494,7 @@ def run_grid(rd):
         axes = [np.unique(g64[:, k]) for k in range(3)]
         if [len(a) for a in axes] != ns:
             viol = ("wrong-axes", f"{call}: distinct coordinates per axis {[len(a) for a in axes]}, expected {ns}")
-        elif len({tuple(p) for p in g64.tolist()}) != g64.shape[0]:
+        elif (len({tuple(p) for p in g64.tolist()}) if g64.shape[0] <= 5000 else np.unique(g64, axis=0).shape[0]) != g64.shape[0]:
             viol = ("duplicate-points", f"{call}: the grid contains duplicate points")
         else:
             for k in range(3):
@@ -403,6 +510,24 @@ def run_grid(rd):
                     break
     # the property speaks about the grid as a set: the observed points are put into the model's raveling order
     # (y slowest, z fastest) before the comparison, so a different but complete enumeration order does not alarm
+    if g64.shape[0] > 1500:
+        # too large for a literal: the count and the points at sampled positions of the (re-ordered) grid -- C19_grid_at
+        order = np.lexsort((g64[:, 2], g64[:, 0], g64[:, 1]))
+        G = int(g64.shape[0])
+        info["order_kept"] = bool((order == np.arange(G)).all())
+        import random
+        r = random.Random(G * 31 + ns[0])
+        S = {0, 1, G - 2, G - 1}
+        for m in (ns[2], ns[0] * ns[2]):
+            for t in r.sample(range(1, max(2, G // m)), min(6, max(1, G // m - 1))):
+                S |= {t * m - 1, t * m}
+        for e in range(10, 18):
+            S |= {(1 << e) - 1, 1 << e}
+        S |= set(r.sample(range(G), 10))
+        S = sorted(i for i in S if 0 <= i < G)
+        body = "; ".join(f"({i}%Z, {vq([Fr(v) for v in g64[order[i]].tolist()])})" for i in S)
+        info["sampled"] = len(S)
+        return f"(CGridAt {vq(r1)} {vq(r2)} {q(pad)} {q(s)} {q(tol)} {G}%Z [{body}])", viol, info
     pts = sorted(g64.tolist(), key=lambda p: (p[1], p[0], p[2]))
     info["order_kept"] = pts == g64.tolist()
     term = f"(CGrid {vq(r1)} {vq(r2)} {q(pad)} {q(s)} {q(tol)} (Some {ptsq(pts)}))"
@@ -410,8 +535,8 @@ def run_grid(rd):
 
 
 # ------------------------------------------------------------------ descriptors: inputs
-def one_desc(rng, kind, generic, cap=400, shape=None):
-    """one descriptor input (a replay dict).  shape=(C, N) fixes the ensemble size."""
+def one_desc(rng, kind, generic, cap=400, shape=None, big=None):
+    """one descriptor input (a replay dict).  shape=(C, N) fixes the ensemble size; big={G, mode, seed}: a large grid (make_grid)."""
     C, N = shape or (rng.randint(1, 4), rng.randint(1, 7))
     if generic:
         f32 = np_().float32          # arbitrary (not lattice-aligned) coordinates, representable in float32
@@ -437,8 +562,49 @@ def one_desc(rng, kind, generic, cap=400, shape=None):
     if kind == "aif":
         rd["radii"] = [rng.choice([0.5, 1.0, 1.25, 1.5, 2.0, 1.7, 1.1]) for _ in range(N)]
         rd["values"] = [[rng.randint(-32, 32) / 8.0 for _ in range(N)] for _ in range(C)]
+        rd["rk"] = rng.choice(["asis", "asis", "f32", "readonly"])
+        rd["vk"] = rng.choice(["asis", "asis", "f32", "fortran", "strided", "readonly"])
+    if kind in ("aif", "aeif"):
         rd["pass_idx"] = rng.random() < 0.5
+        rd["ik"] = rng.choice(["asis", "asis", "i32", "fortran", "readonly"])
+    # how the caller holds the grid, and how many times the call is made with the same argument objects
+    rd["gk"] = rng.choice(GRID_KINDS)
+    rd["reps"] = rng.choice([1, 2, 2])
+    if big:
+        big = dict(big)
+        if big["mode"] != "random":
+            fit = [sp for sp in (3.0, 2.0, 1.5, 1.0, 0.75, 0.5, 0.375, 0.25, 0.1875, 0.125) if npts(sp) >= big["G"]]
+            if fit and npts(fit[0]) <= 2 * big["G"] + 4000:
+                big["s"] = fit[0]
+            else:
+                big["mode"] = "random"
+        rd["big"] = big
+        rd["reps"] = rng.choice([1, 1, 2])
     return rd
+
+
+BIG_SHAPES = [(1, 1), (1, 40), (2, 33), (3, 5), (7, 17), (5, 12), (16, 8), (40, 3), (3, 70), (12, 11), (70, 2)]
+BIG_SIZES = [1000, 1024, 2049, 4096, 5000, 8191, 8192, 12289, 16384, 20011, 32768, 32769, 50021, 65536, 65537, 70001]
+
+
+def big_inputs(ctx):
+    """SIZE: ensembles x grids large enough to cross any internal blocking threshold (distance arrays of 2^16 .. 2^24 elements,
+    up to 70 conformers / 70 atoms, 10^3 .. 1.5 10^5 grid points), grid sizes that are and are not multiples of powers of two"""
+    rng = ctx.rng
+    out = []
+    per = 4 if not ctx.thorough else 30
+    for kind in DESC_KINDS:
+        for i in range(per):
+            shape, G = rng.choice(BIG_SHAPES), rng.choice(BIG_SIZES)
+            if i % 4 == 0:                         # the bundled pentane ensemble's size, an odd grid size, > 2^20 elements
+                shape, G = (7, 17), rng.choice([12289, 20011, 32769, 50021, 70001])
+            elif i % 4 == 1:                       # a small ensemble just across 2^16 elements
+                shape, G = rng.choice([(3, 5), (2, 33), (5, 12), (1, 40)]), rng.choice([5000, 8191, 2049, 12289])
+            mode = rng.choice(["random", "random", "shuffled", "lattice"])
+            out.append(one_desc(rng, kind, False, shape=shape, big=dict(G=G, mode=mode, seed=rng.randint(0, 2 ** 31 - 1))))
+    for kind in (("aso", "aeif") if not ctx.thorough else DESC_KINDS):      # > 2^24 distance-array elements
+        out.append(one_desc(rng, kind, False, shape=(7, 17), big=dict(G=rng.choice([150001, 141312, 163840]), mode="random", seed=rng.randint(0, 2 ** 31 - 1))))
+    return out
 
 
 DESC_KINDS = ("nearest", "prune", "aso", "aeif", "aif")
@@ -591,12 +757,16 @@ def run_seq(ml, sd):
         term, viol, info = run_desc(ml, rd, objs)
         if step[0] == "fresh":
             info = dict(info, id_reused=_STAT.get("reused", False))
-        if viol:
-            viol = (viol[0] + ":after-" + ("fresh-object" if step[0] == "fresh" else "in-place-edit"),
-                    (f"after {' -> '.join(h for h in hist if h != 'fresh')} on the same object: " if step[0] != "fresh" else
-                     "on a fresh object built after a stream of short-lived same-sized objects was dropped (id reuse): ") + viol[1])
+        viol = [(v[0] + ":after-" + ("fresh-object" if step[0] == "fresh" else "in-place-edit"),
+                 (f"after {' -> '.join(h for h in hist if h != 'fresh')} on the same object: " if step[0] != "fresh" else
+                  "on a fresh object built after a stream of short-lived same-sized objects was dropped (id reuse): ") + v[1]) for v in vlist(viol)]
         out.append((term, viol, info))
     return out
+
+
+def vlist(v):
+    """violations of one call as a list: None | (sig, text) | [(sig, text), ...]"""
+    return [] if not v else ([v] if isinstance(v, tuple) else list(v))
 
 
 def build(ml, rd):
@@ -661,126 +831,274 @@ def ql(l):
     return f"(qnums {den} [" + "; ".join(str(int(v * den)) for v in F) + "]%Z)"
 
 
+GRID_KINDS = ["asis", "asis", "other-width", "fortran", "strided", "readonly"]
+
+
+def as_kind(arr, how):
+    """the same values held differently by the caller"""
+    np = np_()
+    if how == "other-width":
+        return arr.astype(np.float64 if arr.dtype == np.float32 else np.float32)
+    if how == "fortran":
+        return np.asfortranarray(arr)
+    if how == "strided":
+        big = np.full((2 * arr.shape[0], 2 * arr.shape[1]), 7, dtype=arr.dtype)
+        big[::2, ::2] = arr
+        return big[::2, ::2]
+    if how == "readonly":
+        r = arr.copy()
+        r.flags.writeable = False
+        return r
+    if how in ("i32", "f32"):
+        return arr.astype(np.int32 if how == "i32" else np.float32)
+    return arr
+
+
+def make_grid(gb, rd):
+    """the grid of a descriptor case: rectangular_grid of rd['grid'], or -- rd['big'] -- a large point set generated from a seed:
+    'random' (G dyadic points in the padded bounding box), 'lattice' (the rectangular grid of the box), 'shuffled' (G points of
+    that lattice in random order: the tail of the array is not the empty far face of the box)"""
+    np = np_()
+    gp = rd["grid"]
+    b = rd.get("big")
+    if not b:
+        return gb.rectangular_grid(gp["r1"], gp["r2"], padding=gp["pad"], spacing=gp["s"], dtype=gp["dtype"])
+    rs = np.random.RandomState(b["seed"])
+    lo = [gp["r1"][k] - gp["pad"] for k in range(3)]
+    hi = [gp["r2"][k] + gp["pad"] for k in range(3)]
+    if b["mode"] == "random":
+        pts = np.column_stack([rs.randint(int(lo[k] * 8), int(hi[k] * 8) + 1, size=b["G"]) / 8.0 for k in range(3)])
+        return pts.astype(gp["dtype"])
+    lat = gb.rectangular_grid(gp["r1"], gp["r2"], padding=gp["pad"], spacing=b["s"], dtype=gp["dtype"])
+    if b["mode"] == "shuffled":
+        lat = lat[rs.permutation(lat.shape[0])[:b["G"]]]
+    return lat
+
+
+def blocks_of(G, per_point, limit=1 << 20):
+    """the harness's OWN blocking of a reference evaluation (ceil count: the partial last block is included)"""
+    step = max(1, limit // max(1, per_point))
+    return [slice(a, min(G, a + step)) for a in range(0, G, step)]
+
+
+def dist2_block(co, g64, sl):
+    return ((co[:, :, None, :] - g64[None, None, sl, :]) ** 2).sum(-1)            # (C, N, g), float64 reference
+
+
+def ref_fields(co, g64, radii, want_near):
+    """inside (C, G), ambiguous (G), nearest atom (C, G) -- float64 numpy evaluation of the definition"""
+    np = np_()
+    C, N = co.shape[:2]
+    G = g64.shape[0]
+    inside = np.zeros((C, G), dtype=bool)
+    amb = np.zeros(G, dtype=bool)
+    near = np.zeros((C, G), dtype=np.int64) if want_near else None
+    r2 = (radii ** 2)[None, :, None]
+    for sl in blocks_of(G, C * N):
+        d2 = dist2_block(co, g64, sl)
+        inside[:, sl] = (d2 <= r2).any(axis=1)
+        amb[sl] = (np.abs(d2 - r2) <= float(SURF_BAND)).any(axis=(0, 1))
+        if want_near:
+            near[:, sl] = d2.argmin(axis=1)
+            if N > 1:                                                            # ties between nearest atoms: either is right
+                srt = np.sort(np.partition(d2, 1, axis=1)[:, :2, :], axis=1)
+                amb[sl] |= (srt[:, 1, :] - srt[:, 0, :] <= 1e-9 * (1 + srt[:, 0, :])).any(axis=0)
+    return inside, amb, near
+
+
+def judge_nearest(rd, what, obs, cosel, g64):
+    np = np_()
+    G = g64.shape[0]
+    rows = obs.reshape((-1, G)) if obs.ndim == 1 else obs
+    if rows.shape != (cosel.shape[0], G) or (rd["target"] != "ens" and obs.ndim != 1) or obs.dtype.kind not in "iu":
+        return ("nearest:wrong-shape", f"{what}: result shape {obs.shape} dtype {obs.dtype}")
+    b = float(NEAR_BAND) * 4
+    N = cosel.shape[1]
+    for sl in blocks_of(G, cosel.shape[0] * N):
+        dsel = np.sqrt(dist2_block(cosel, g64, sl))                              # (C, N, g)
+        dmin = dsel.min(axis=1)
+        r = rows[:, sl]
+        inr = (r >= 0) & (r < N)
+        dr = np.take_along_axis(dsel, np.clip(r, 0, N - 1)[:, None, :], axis=1)[:, 0, :]
+        ok = np.where(r == -1, dmin >= rd["cut"] * (1 - b), inr & (dr <= rd["cut"] * (1 + b)) & (dr <= dmin * (1 + b)))
+        if not ok.all():
+            c, k = (int(x) for x in np.argwhere(~ok)[0])
+            gi = sl.start + k
+            tag = "plain-geometry" if rd["target"] != "ens" else "ensemble"
+            return (f"nearest:{tag}:wrong-index", f"{what}: target={rd['target']} max_dist={rd['cut']}: grid point #{gi} {g64[gi].tolist()} got index {int(r[c, k])}, "
+                    f"closest atom is at distance {dmin[c, k]:.6f}" + (f", atom {int(r[c, k])} at {dr[c, k]:.6f}" if inr[c, k] else ""))
+    return None
+
+
+def judge_prune(rd, what, kept, cosel, g64):
+    np = np_()
+    G = g64.shape[0]
+    kl = [int(i) for i in kept.tolist()] if kept.ndim == 1 else None
+    if kl is None or kept.dtype.kind not in "iu" or any(i < 0 or i >= G for i in kl) or any(b <= a for a, b in zip(kl, kl[1:])):
+        return ("prune:bad-indices", f"{what}: result is not an ascending list of grid indices: {kept.tolist()[:20]}")
+    atoms = cosel.reshape((1, -1, 3))
+    mask = np.zeros(G, dtype=bool)
+    mask[kl] = True
+    b = float(NEAR_BAND) * 4
+    for sl in blocks_of(G, atoms.shape[1]):
+        dmin = np.sqrt(dist2_block(atoms, g64, sl))[0].min(axis=0)
+        far = mask[sl] & (dmin > rd["cut"] * (1 + b))
+        close = ~mask[sl] & (dmin < rd["cut"] / (1 + rd["eps"]) * (1 - b))
+        if far.any() or close.any():
+            k = int(np.argwhere(far | close)[0][0])
+            gi = sl.start + k
+            if far[k]:
+                return ("prune:kept-too-far", f"{what}: max_dist={rd['cut']}: kept grid point #{gi} {g64[gi].tolist()} is {dmin[k]:.6f} from the nearest atom")
+            return ("prune:dropped-too-close", f"{what}: max_dist={rd['cut']} eps={rd['eps']}: dropped grid point #{gi} {g64[gi].tolist()} is only {dmin[k]:.6f} "
+                    f"from the nearest atom (< max_dist/(1+eps) = {rd['cut'] / (1 + rd['eps']):.6f})")
+    return None
+
+
+def sample_idx(G, C, N, interesting, seed):
+    """grid positions compared inside Coq when the grid is too large for a literal: both ends, the points around the end of the
+    last full block for every candidate block length (2^e points, or 2^e distance-array elements per block), random points and
+    points with a non-trivial value"""
+    import random
+    r = random.Random(seed)
+    S = {0, 1, G - 2, G - 1}
+    bnd = set()
+    for e in (8, 10, 11, 12, 13, 14, 15, 16, 18, 20, 22, 24):
+        T = 1 << e
+        for step in {T, T // (C * N), T // N, T // C}:
+            if 1 <= step < G:
+                last = (G // step) * step
+                bnd |= {last - 1, last, step - 1, step}
+    bnd = sorted(i for i in bnd if 0 <= i < G)
+    S |= set(r.sample(bnd, min(len(bnd), 18)))
+    S |= set(r.sample(range(G), min(G, 8)))
+    inter = [int(i) for i in interesting]
+    S |= set(r.sample(inter, min(len(inter), 10)))
+    return sorted(i for i in S if 0 <= i < G)
+
+
 def run_desc(ml, rd, objs=None):
-    """(term|None, violation|None, info).  objs = (ensemble, target) when the call is made on live objects whose current
-    state is described by rd; otherwise they are built from rd."""
+    """(term|None, [violations], info).  objs = (ensemble, target) when the call is made on live objects whose current
+    state is described by rd; otherwise they are built from rd.  The call is made rd['reps'] times with the same argument
+    objects (grid held as rd['gk']); every call is judged, and every array argument must be unchanged afterwards."""
     np = np_()
     from molli.descriptor import gridbased as gb
     kind = rd["kind"]
     gp = rd["grid"]
     try:
-        grid = gb.rectangular_grid(gp["r1"], gp["r2"], padding=gp["pad"], spacing=gp["s"], dtype=gp["dtype"])
+        grid = make_grid(gb, rd)
     except Exception as e:  # noqa
         return None, None, {"skipped": f"grid construction raised {e!r} (judged by the grid cases)"}
-    if grid.shape[0] == 0 or grid.shape[0] > 400:
+    G = int(grid.shape[0])
+    if G == 0 or (G > 400 and not rd.get("big")):
         return None, None, {"skipped": "empty or oversized grid"}
+    grid = as_kind(grid, rd.get("gk", "asis"))
     g64 = np.asarray(grid, dtype=np.float64)
     ens = objs[0] if objs else build(ml, rd)
     co = np.array(rd["coords"], dtype=np.float64)
-    d2 = ((co[:, :, None, :] - g64[None, None, :, :]) ** 2).sum(-1)            # (C, N, G), float64 reference
-    info = {"G": int(grid.shape[0])}
-    what = f"{kind} on {co.shape[0]} conformer(s) x {co.shape[1]} atom(s), grid {gp}"
+    C, N = co.shape[:2]
+    info = {"G": G}
+    what = (f"{kind} on {C} conformer(s) x {N} atom(s), grid {gp}" + (f" [{rd['big']}: {G} points]" if rd.get("big") else "")
+            + (f" held as {rd['gk']}" if rd.get("gk", "asis") != "asis" else ""))
+    w = np.array(rd["weights"], dtype=float) if rd["weighted"] else None
+    wq = "None" if w is None else f"(Some {ql(rd['weights'])})"
+    viols = []
     try:
-        if kind == "nearest":
+        named = [("grid", grid), ("ens.coords", ens.coords), ("ens.weights", ens.weights), ("ens.atomic_charges", ens.atomic_charges)]
+        if kind in ("nearest", "prune"):
             tgt, cosel = (objs[1], cosel_of(rd)) if objs else target_of(ml, rd, ens)
-            obs = np.asarray(gb.nearest_atom_index(grid, tgt, max_dist=rd["cut"]))
-            rows = obs.reshape((-1, grid.shape[0])) if obs.ndim == 1 else obs
-            dsel = np.sqrt(((cosel[:, :, None, :] - g64[None, None, :, :]) ** 2).sum(-1))
-            viol = None
-            if rows.shape != (cosel.shape[0], grid.shape[0]) or (rd["target"] != "ens" and obs.ndim != 1):
-                viol = ("nearest:wrong-shape", f"{what}: result shape {obs.shape}")
+            named.append(("target.coords", tgt.coords))
+            if kind == "nearest":
+                call = lambda: np.asarray(gb.nearest_atom_index(grid, tgt, max_dist=rd["cut"]))
+                judge = lambda o: judge_nearest(rd, what, o, cosel, g64)
             else:
-                b = float(NEAR_BAND) * 4
-                for c in range(rows.shape[0]):
-                    dmin = dsel[c].min(axis=0)
-                    for gi in range(grid.shape[0]):
-                        r = int(rows[c, gi])
-                        if r == -1:
-                            ok = dmin[gi] >= rd["cut"] * (1 - b)
-                        else:
-                            ok = 0 <= r < dsel.shape[1] and dsel[c, r, gi] <= rd["cut"] * (1 + b) and dsel[c, r, gi] <= dmin[gi] * (1 + b)
-                        if not ok:
-                            tag = "plain-geometry" if rd["target"] != "ens" else "ensemble"
-                            viol = (f"nearest:{tag}:wrong-index", f"{what}: target={rd['target']} max_dist={rd['cut']}: grid point {g64[gi].tolist()} got index {r}, "
-                                    f"closest atom is at distance {dmin[gi]:.6f}" + (f", atom {r} at {dsel[c, r, gi]:.6f}" if 0 <= r < dsel.shape[1] else ""))
-                            break
-                    if viol:
-                        break
-            term = f"(CNearest {q(NEAR_BAND)} {ensq(cosel.tolist())} {q(rd['cut'])} {ptsq(g64.tolist())} {cq_list(zl(r) for r in rows.tolist())})"
-            return term, viol, info
-        if kind == "prune":
-            tgt, cosel = (objs[1], cosel_of(rd)) if objs else target_of(ml, rd, ens)
-            kept = np.asarray(gb.prune(grid, tgt, max_dist=rd["cut"], eps=rd["eps"]))
-            atoms = cosel.reshape((-1, 3))
-            dmin = np.sqrt(((atoms[:, None, :] - g64[None, :, :]) ** 2).sum(-1)).min(axis=0)
-            b = float(NEAR_BAND) * 4
-            ks = set(int(i) for i in kept.tolist())
-            viol = None
-            if kept.ndim != 1 or sorted(ks) != [int(i) for i in kept.tolist()] or any(i < 0 or i >= grid.shape[0] for i in ks):
-                viol = ("prune:bad-indices", f"{what}: result is not an ascending list of grid indices: {kept.tolist()[:20]}")
-            else:
-                for gi in range(grid.shape[0]):
-                    if gi in ks and dmin[gi] > rd["cut"] * (1 + b):
-                        viol = ("prune:kept-too-far", f"{what}: max_dist={rd['cut']}: kept grid point {g64[gi].tolist()} is {dmin[gi]:.6f} from the nearest atom")
-                    elif gi not in ks and dmin[gi] < rd["cut"] / (1 + rd["eps"]) * (1 - b):
-                        viol = ("prune:dropped-too-close", f"{what}: max_dist={rd['cut']} eps={rd['eps']}: dropped grid point {g64[gi].tolist()} is only {dmin[gi]:.6f} "
-                                f"from the nearest atom (< max_dist/(1+eps) = {rd['cut'] / (1 + rd['eps']):.6f})")
-                    if viol:
-                        break
-            term = f"(CPrune {q(NEAR_BAND)} {ptsq(atoms.tolist())} {q(rd['cut'])} {q(rd['eps'])} {ptsq(g64.tolist())} {zl(kept.tolist())})"
-            return term, viol, info
-        w = np.array(rd["weights"], dtype=float) if rd["weighted"] else None
-        wq = "None" if w is None else f"(Some {ql(rd['weights'])})"
-        if kind == "aso":
-            radii = np.array([a.vdw_radius for a in ens.atoms], dtype=np.float64)
-            obs = np.asarray(gb.aso(ens, grid, weighted=rd["weighted"]), dtype=np.float64)
-            inside = (d2 <= (radii ** 2)[None, :, None]).any(axis=1)                      # (C, G)
-            amb = (np.abs(d2 - (radii ** 2)[None, :, None]) <= float(SURF_BAND)).any(axis=(0, 1))
-            ref = np.average(inside.astype(float), axis=0, weights=w)
-            viol = desc_compare(kind, what, obs, ref, amb, g64)
-            term = f"(CAso {q(SURF_BAND)} {q(VAL_TOL)} {ensq(co.tolist())} {ql(radii.tolist())} {wq} {ptsq(g64.tolist())} {ql(obs.tolist())})"
-            info["ambiguous"] = int(amb.sum())
-            return term, viol, info
-        # aeif / atomic_indicator_field
-        if kind == "aeif":
-            radii = np.array([a.vdw_radius for a in ens.atoms], dtype=np.float64)
-            values = np.array(rd["charges"], dtype=np.float64)
-            idx = np.asarray(gb.nearest_atom_index(grid, ens, max_dist=float(np.max(radii))))
-            obs = np.asarray(gb.aeif(ens, grid, weighted=rd["weighted"]), dtype=np.float64)
+                call = lambda: np.asarray(gb.prune(grid, tgt, max_dist=rd["cut"], eps=rd["eps"]))
+                judge = lambda o: judge_prune(rd, what, o, cosel, g64)
         else:
-            radii = np.array(rd["radii"], dtype=np.float64)
-            values = np.array(rd["values"], dtype=np.float64)
-            idx = np.asarray(gb.nearest_atom_index(grid, ens, max_dist=float(np.max(radii))))
-            obs = np.asarray(gb.atomic_indicator_field(ens, grid, values, radii, nearest_atom_idx=(idx if rd["pass_idx"] else None),
-                                                       weighted=rd["weighted"]), dtype=np.float64)
-        cut = float(np.max(radii))
-        inside = (d2 <= (radii ** 2)[None, :, None]).any(axis=1)
-        amb = (np.abs(d2 - (radii ** 2)[None, :, None]) <= float(SURF_BAND)).any(axis=(0, 1))
-        srt = np.sort(d2, axis=1)
-        if d2.shape[1] > 1:                                                              # ties between nearest atoms: either is right
-            tie = (srt[:, 1, :] - srt[:, 0, :] <= 1e-9 * (1 + srt[:, 0, :]))
-            amb = amb | tie.any(axis=0)
-        near = d2.argmin(axis=1)                                                         # (C, G)
-        per = np.where(inside, np.take_along_axis(values, near, axis=1), 0.0)
-        ref = np.average(per, axis=0, weights=w)
-        viol = desc_compare(kind, what, obs, ref, amb, g64)
-        term = (f"(CAif {q(SURF_BAND)} {q(NEAR_BAND)} {q(VAL_TOL)} {ensq(co.tolist())} {ql(radii.tolist())} {cq_list(ql(v) for v in values.tolist())} "
-                f"{q(cut)} {cq_list(zl(r) for r in idx.tolist())} {wq} {ptsq(g64.tolist())} {ql(obs.tolist())})")
-        info["ambiguous"] = int(amb.sum())
-        return term, viol, info
+            if kind == "aif":
+                radii = as_kind(np.array(rd["radii"], dtype=np.float64), rd.get("rk", "asis"))
+                values = as_kind(np.array(rd["values"], dtype=np.float64), rd.get("vk", "asis"))
+                named += [("indicator_values", values), ("atomic_radii", radii)]
+            else:
+                radii = np.array([a.vdw_radius for a in ens.atoms], dtype=np.float64)
+                values = np.array(rd["charges"], dtype=np.float64)
+            rad64, val64 = np.asarray(radii, dtype=np.float64), np.asarray(values, dtype=np.float64)
+            inside, amb, near = ref_fields(co, g64, rad64, kind != "aso")
+            info["ambiguous"] = int(amb.sum())
+            if kind == "aso":
+                ref = np.average(inside.astype(float), axis=0, weights=w)
+                call = lambda: np.asarray(gb.aso(ens, grid, weighted=rd["weighted"]), dtype=np.float64)
+            else:
+                cut = float(np.max(rad64))
+                idx = as_kind(np.asarray(gb.nearest_atom_index(grid, ens, max_dist=float(np.max(radii)))), rd.get("ik", "asis"))
+                per = np.where(inside, np.take_along_axis(val64, near, axis=1), 0.0)
+                ref = np.average(per, axis=0, weights=w)
+                if kind == "aeif":
+                    if rd.get("pass_idx"):
+                        named.append(("nearest_atom_idx", idx))
+                    call = lambda: np.asarray(gb.aeif(ens, grid, nearest_atom_idx=(idx if rd.get("pass_idx") else None), weighted=rd["weighted"]), dtype=np.float64)
+                else:
+                    if rd["pass_idx"]:
+                        named.append(("nearest_atom_idx", idx))
+                    call = lambda: np.asarray(gb.atomic_indicator_field(ens, grid, values, radii, nearest_atom_idx=(idx if rd["pass_idx"] else None),
+                                                                        weighted=rd["weighted"]), dtype=np.float64)
+            judge = lambda o: desc_compare(kind, what, o, ref, amb, g64)
+        frozen = arg_state(named)
+        obs = None
+        for i in range(int(rd.get("reps", 1))):
+            obs = call()
+            v = judge(obs)
+            if v:
+                viols.append((v[0] + (":repeated-call" if i else ""), (f"call {i + 1} with the same argument objects: " if i else "") + v[1]))
+            bad = args_changed(frozen)
+            if bad:
+                viols.append((f"{kind}:argument-mutated:" + "+".join(bad), f"{what}: the call changed the caller's array argument(s) {bad}"))
+            if v or bad:
+                break
+        # ---- the case term: the whole grid, or -- large grid -- the sampled positions (C19_sample)
+        if G <= 400:
+            S = None
+            sub = lambda a: a
+        else:
+            inter = (np.nonzero((obs.reshape((-1, G)) >= 0).any(axis=0))[0] if kind == "nearest" else obs if kind == "prune" else np.nonzero(obs)[0]) \
+                if obs is not None and obs.ndim >= 1 and obs.size and (kind == "prune" or obs.shape[-1] == G) else []
+            S = sample_idx(G, C, N, inter, rd["big"]["seed"])
+            info["sampled"] = len(S)
+            sub = lambda a: a[..., S]
+        gS = g64 if S is None else g64[S]
+        if kind == "nearest":
+            rows = obs.reshape((-1, G)) if obs.ndim == 1 else obs
+            if rows.ndim != 2 or rows.shape[1] != G:
+                return None, viols, info
+            term = f"(CNearest {q(NEAR_BAND)} {ensq(cosel.tolist())} {q(rd['cut'])} {ptsq(gS.tolist())} {cq_list(zl(r) for r in sub(rows).tolist())})"
+        elif kind == "prune":
+            if obs.ndim != 1:
+                return None, viols, info
+            kl = [int(i) for i in obs.tolist()]
+            if S is not None:
+                pos = {g: j for j, g in enumerate(S)}
+                kl = [pos[i] for i in kl if i in pos]
+            term = f"(CPrune {q(NEAR_BAND)} {ptsq(cosel.reshape((-1, 3)).tolist())} {q(rd['cut'])} {q(rd['eps'])} {ptsq(gS.tolist())} {zl(kl)})"
+        elif obs.shape != (G,):
+            return None, viols, info
+        elif kind == "aso":
+            term = f"(CAso {q(SURF_BAND)} {q(VAL_TOL)} {ensq(co.tolist())} {ql(rad64.tolist())} {wq} {ptsq(gS.tolist())} {ql(sub(obs).tolist())})"
+        else:
+            term = (f"(CAif {q(SURF_BAND)} {q(NEAR_BAND)} {q(VAL_TOL)} {ensq(co.tolist())} {ql(rad64.tolist())} {cq_list(ql(v) for v in val64.tolist())} "
+                    f"{q(cut)} {cq_list(zl(r) for r in sub(np.asarray(idx)).tolist())} {wq} {ptsq(gS.tolist())} {ql(sub(obs).tolist())})")
+        return term, viols, info
     except Exception as e:  # noqa
-        return None, (f"{kind}:raises-{type(e).__name__}", f"{what}: raised {e!r}"), info
+        return None, viols + [(f"{kind}:raises-{type(e).__name__}", f"{what}: raised {e!r}")], info
 
 
 def desc_compare(kind, what, obs, ref, amb, g64):
     np = np_()
     if obs.shape != ref.shape:
         return (f"{kind}:wrong-shape", f"{what}: result shape {obs.shape}, expected {ref.shape}")
-    bad = (np.abs(obs - ref) > float(VAL_TOL) * 4) & ~amb
+    bad = ((np.abs(obs - ref) > float(VAL_TOL) * 4) | ~np.isfinite(obs)) & ~amb
     if bad.any():
         gi = int(np.argwhere(bad)[0][0])
-        return (f"{kind}:wrong-value", f"{what}: at grid point {g64[gi].tolist()} the result is {obs[gi]!r}, the conformer average of the "
-                f"van der Waals indicator is {ref[gi]!r}")
+        return (f"{kind}:wrong-value", f"{what}: at grid point #{gi} {g64[gi].tolist()} the result is {obs[gi]!r}, the conformer average of the "
+                f"van der Waals indicator is {ref[gi]!r} ({int(bad.sum())} of {len(bad)} points differ, positions {int(np.argwhere(bad)[0][0])}..{int(np.argwhere(bad)[-1][0])})")
     return None
 
 
